@@ -4,6 +4,7 @@ package main
 
 import (
 	"fmt"
+	"go/types"
 	"os"
 	"sort"
 	"strings"
@@ -79,26 +80,28 @@ type Exec struct {
 	initing int
 
 	findKey string
+	absSeq  int
 	// per-path expectation flags
 	expectPanic bool
 }
 
 type Worker struct {
-	id           int
-	P            *Program
-	exp          *Explorer
-	tc           *TermCtx
-	sol          *Solver
-	stack        []decision // decisions on the solver stack (above base level 1)
-	fresh        bool
-	implCache    map[[2]any]bool
-	intrCache    map[*ssa.Function]intrinsicFn
-	stubCache    map[*ssa.Function]*ssa.Function
-	denyCache    map[*ssa.Function]bool
-	sharedGlob   map[*ssa.Global]*Value
-	sharedInited map[*ssa.Package]bool
-	regexCache   map[string]*compiledRegex
-	funcsSeen    map[*ssa.Function]int
+	id             int
+	P              *Program
+	exp            *Explorer
+	tc             *TermCtx
+	sol            *Solver
+	stack          []decision // decisions on the solver stack (above base level 1)
+	fresh          bool
+	implCache      map[[2]any]bool
+	intrCache      map[*ssa.Function]intrinsicFn
+	stubCache      map[*ssa.Function]*ssa.Function
+	denyCache      map[*ssa.Function]bool
+	sharedGlob     map[*ssa.Global]*Value
+	sharedInited   map[*ssa.Package]bool
+	regexCache     map[string]*compiledRegex
+	jsonFieldCache map[*types.Struct][]jsonField
+	funcsSeen      map[*ssa.Function]int
 }
 
 type Explorer struct {
@@ -226,7 +229,7 @@ func (e *Explorer) newWorker(id int) *Worker {
 	w := &Worker{id: id, P: e.P, exp: e, tc: NewTermCtx(), sol: sol, fresh: true,
 		implCache: map[[2]any]bool{}, intrCache: map[*ssa.Function]intrinsicFn{}, stubCache: map[*ssa.Function]*ssa.Function{},
 		denyCache: map[*ssa.Function]bool{}, sharedGlob: map[*ssa.Global]*Value{}, sharedInited: map[*ssa.Package]bool{},
-		regexCache: map[string]*compiledRegex{}, funcsSeen: map[*ssa.Function]int{}}
+		regexCache: map[string]*compiledRegex{}, jsonFieldCache: map[*types.Struct][]jsonField{}, funcsSeen: map[*ssa.Function]int{}}
 	sol.Push() // base level 1
 	return w
 }
